@@ -132,6 +132,49 @@ def version_test(test):
     return None
 
 
+def version_refusal(s):
+    """`if kmip_version < V: raise exceptions.VersionNotSupported(...)` -> V"""
+    if isinstance(s, ast.If) and not s.orelse and len(s.body) == 1 and isinstance(s.body[0], ast.Raise):
+        vt = version_test(s.test)
+        exc = s.body[0].exc
+        if vt and vt[0] == '<' and isinstance(exc, ast.Call) and getattr(exc.func, 'attr', None) == 'VersionNotSupported':
+            return vt[1]
+    return None
+
+
+def check_validate(ctx, node):
+    """`self.validate()` inside read/write is accepted when validate() can only raise TypeError
+    (type checks on the attributes: never triggered by objects the reader itself constructed)."""
+    import textwrap
+    seen, todo = set(), ['validate']
+    while todo:
+        name = todo.pop()
+        if name in seen:
+            continue
+        seen.add(name)
+        fn = None
+        for k in ctx.cls.__mro__:
+            for cand in (name, '_%s%s' % (k.__name__, name) if name.startswith('__') else name):
+                if cand in k.__dict__:
+                    fn = k.__dict__[cand]
+                    break
+            if fn is not None:
+                break
+        if fn is None:
+            raise ctx.err(node, 'validate(): cannot find method %s' % name)
+        tree = ast.parse(textwrap.dedent(inspect.getsource(fn)))
+        for n in ast.walk(tree):
+            if isinstance(n, ast.Raise):
+                e = n.exc
+                if not (isinstance(e, ast.Call) and _is_name(e.func, 'TypeError')):
+                    raise ctx.err(node, 'validate() may raise something other than TypeError (line %s of %s): a value check is not expressible' % (n.lineno, name))
+            if isinstance(n, ast.Call) and _self_attr(n.func) and _self_attr(n.func) != 'validate':
+                todo.append(_self_attr(n.func))
+            if isinstance(n, ast.Call) and isinstance(n.func, ast.Attribute) and n.func.attr in ('validate',) \
+                    and not _self_attr(n.func):
+                raise ctx.err(node, 'validate() delegates to another object')
+
+
 def narrow(guard, op, code, negate=False):
     lo, hi = guard
     if (op == '<') != negate:
@@ -205,6 +248,8 @@ class ReadWalker:
         self.done = False           # is_oversized seen: nothing may follow
         self.local_lists = {}       # local list variable -> items appended through it
         self.flags = set()
+        self.pending = {}           # constructed, not yet read (old style: construct all, then read all)
+        self.minver = None          # class-level refusal `if kmip_version < V: raise VersionNotSupported`
 
     # -- recognisers
     def tag_next_test(self, test):
@@ -278,9 +323,14 @@ class ReadWalker:
             i += 1
             if _is_docstring(s):
                 continue
-            if self.done:
+            if self.done and not (top and isinstance(s, ast.Expr) and isinstance(s.value, ast.Call)
+                                  and _self_attr(s.value.func) == 'validate'):
                 raise self.ctx.err(s, 'statement after is_oversized(): %s' % _dump(s))
             if not self.header:
+                mv = version_refusal(s)
+                if top and mv is not None and self.minver is None:
+                    self.minver = mv
+                    continue
                 if top and self.super_read(s):
                     self.header = True
                     continue
@@ -309,8 +359,10 @@ class ReadWalker:
                         mult = 'Opt'
                     elif len(s.orelse) == 1 and isinstance(s.orelse[0], ast.Raise):
                         mult = 'Req'
+                    elif len(s.orelse) == 1 and self.is_reset(s.orelse[0], field_node):
+                        mult = 'Opt'
                     else:
-                        raise self.ctx.err(s.orelse[0], 'else branch of is_tag_next is not a single raise')
+                        raise self.ctx.err(s.orelse[0], 'else branch of is_tag_next is neither a single raise nor self.<field> = None')
                     self.add(s, field_node, tag, kind, guard, mult)
                     continue
                 raise self.ctx.err(s, 'unrecognised if: %s' % _dump(s.test))
@@ -356,16 +408,52 @@ class ReadWalker:
                     for it in self.local_lists[v.id]:
                         it['field'] = f
                     continue
-                # unconditional construct + read  (old style, Req)
-                if isinstance(v, ast.Call) and i < len(stmts) and self.read_call_safe(stmts[i]):
-                    n = 2
-                    if i + 1 < len(stmts) and isinstance(t, ast.Name) and isinstance(stmts[i + 1], ast.Assign) \
-                            and _is_name(stmts[i + 1].value, t.id):
-                        n = 3
-                    field_node, tag, kind = self.construct_and_read(stmts[i - 1:i - 1 + n], 'unconditional read')
-                    self.add(s, field_node, tag, kind, guard, 'Req')
-                    i += n - 1
+                # storing a local that was decoded unconditionally
+                if isinstance(v, ast.Name) and ('<local:%s>' % v.id) in [it['field'] for it in self.items] and _self_attr(t):
+                    f = self.ctx.field_of(t)[0]
+                    for it in self.items:
+                        if it['field'] == '<local:%s>' % v.id:
+                            it['field'] = f
                     continue
+                # construction of an item that is read (unconditionally) further down: old style, Req
+                if isinstance(v, ast.Call) and (isinstance(t, ast.Name) or _self_attr(t)) and top:
+                    key = ast.dump(t).replace('Store()', 'Load()')
+                    if key in self.pending:
+                        raise self.ctx.err(s, 'item constructed twice before being read: %s' % _dump(t))
+                    self.pending[key] = s
+                    continue
+            rc = self.read_call(s)
+            if rc is not None:
+                # unconditional <obj>.read(buf): the item is required
+                target, has_v = rc
+                key = ast.dump(target)
+                if key in self.pending:
+                    a = self.pending.pop(key)
+                    obj = self.ctx.evaluate(a.value)
+                    where = a.value
+                elif _self_attr(target):
+                    # constructed by __init__: look at a default instance
+                    try:
+                        obj = getattr(self.ctx.cls(), _self_attr(target))
+                    except Exception as e:
+                        raise self.ctx.err(s, 'cannot inspect the pre-constructed attribute %s (%s)' % (_dump(target), e))
+                    where = s
+                    self.flags.add('preconstructed')
+                else:
+                    raise self.ctx.err(s, 'read() on an object of unknown origin: %s' % _dump(target))
+                tag, kind = self.kinds.classify(self.ctx, where, obj)
+                if kind[0] == 'struct' and not has_v:
+                    raise self.ctx.err(s, 'nested structure read without kmip_version=kmip_version')
+                if isinstance(target, ast.Name):
+                    self.add(s, '<local:%s>' % target.id, tag, kind, guard, 'Req')
+                else:
+                    self.add(s, target, tag, kind, guard, 'Req')
+                continue
+            if top and isinstance(s, ast.Expr) and isinstance(s.value, ast.Call) and _self_attr(s.value.func) == 'validate' \
+                    and not s.value.args and not s.value.keywords:
+                check_validate(self.ctx, s)
+                self.flags.add('validate')
+                continue
             if isinstance(s, ast.Expr) and isinstance(s.value, ast.Call) and _self_attr(s.value.func) == 'is_oversized':
                 c = s.value
                 if len(c.args) != 1 or not _is_name(c.args[0], self.buf) or c.keywords:
@@ -376,6 +464,10 @@ class ReadWalker:
                 self.done = True
                 continue
             raise self.ctx.err(s, 'unrecognised statement in read(): %s' % _dump(s))
+
+    def is_reset(self, s, field_node):
+        return isinstance(s, ast.Assign) and len(s.targets) == 1 and isinstance(s.value, ast.Constant) \
+            and s.value.value is None and ast.dump(s.targets[0]) == ast.dump(field_node)
 
     def read_call_safe(self, s):
         try:
@@ -429,6 +521,7 @@ class WriteWalker:
         self.ostream = None
         self.trailer = 0        # 0: body, 1: length set, 2: header written, 3: body copied
         self.flags = set()
+        self.minver = None
 
     def write_call(self, s, buf=None):
         """`<target>.write(buf, kmip_version=kmip_version)` -> target node"""
@@ -480,7 +573,16 @@ class WriteWalker:
         for s in stmts:
             if _is_docstring(s):
                 continue
+            if top and isinstance(s, ast.Expr) and isinstance(s.value, ast.Call) and _self_attr(s.value.func) == 'validate' \
+                    and not s.value.args and not s.value.keywords and self.trailer == 0:
+                check_validate(self.ctx, s)
+                self.flags.add('validate')
+                continue
             if self.buf is None:
+                mv = version_refusal(s)
+                if top and mv is not None and self.minver is None:
+                    self.minver = mv
+                    continue
                 # local_stream = [utils.]BytearrayStream()
                 if top and isinstance(s, ast.Assign) and len(s.targets) == 1 and isinstance(s.targets[0], ast.Name) \
                         and isinstance(s.value, ast.Call) and not s.value.args and not s.value.keywords \
@@ -598,12 +700,20 @@ def translate_class(ctx, kinds):
         raise ctx.err(rdef, 'read() never reads the header')
     if not r.substream:
         raise ctx.err(rdef, 'read() does not cut a sub-stream (items read from the enclosing stream)')
+    if r.pending:
+        raise ctx.err(rdef, 'item constructed but never read: %s' % sorted(r.pending))
     for it in r.items:
         if it['field'].startswith('<local:'):
             raise ctx.err(rdef, 'list %s filled by read() is never stored in self' % it['field'])
     w = WriteWalker(ctx)
     w.ostream = method_args(ctx, wdef)
     w.walk(wdef.body, (LO_MIN, HI_MAX), top=True)
+    if r.minver != w.minver:
+        raise ctx.err(wdef, 'read() refuses versions below %s, write() below %s' % (r.minver, w.minver))
+    minver = r.minver
+    if minver is not None:
+        for it in r.items + w.items:
+            it['lo'] = max(it['lo'], minver)
     # associate written fields with what the reader constructs for the same attribute
     by_field = {}
     for it in r.items:
@@ -626,7 +736,8 @@ def translate_class(ctx, kinds):
         wr_items.append({'field': it['field'], 'tag': tag, 'kind': kind, 'lo': it['lo'], 'hi': it['hi'],
                          'mult': it['mult'], 'test': it['test'], 'line': it['line']})
     return {'name': ctx.name, 'module': ctx.mod.__name__, 'file': ctx.file,
-            'rd': r.items, 'wr': wr_items, 'oversize': r.oversize,
+            'rd': r.items, 'wr': wr_items, 'oversize': r.oversize, 'minver': minver,
+            'flags': sorted(r.flags | w.flags),
             'read_line': rdef.lineno, 'write_line': wdef.lineno}
 
 
@@ -725,9 +836,13 @@ def translate(repo):
                     changed = True
                     break
     included = [ok[n] for n in names if n in ok and n not in excluded]
-    for c in included:
+    inc_names = {c['name'] for c in included}
+    # listed although translatable: emitted beside E (not in it) when everything they refer to is in E
+    listed = [ok[n] for n in names if n in ok and n in hand
+              and all(it['kind'][0] != 'struct' or it['kind'][1] in inc_names for it in ok[n]['rd'] + ok[n]['wr'])]
+    for c in included + listed:
         c['default_tag'] = default_tag(classes[c['name']])
-    return {'classes': included, 'excluded': excluded, 'errors': errors, 'unlisted_errors': unlisted,
+    return {'classes': included, 'listed': listed, 'excluded': excluded, 'errors': errors, 'unlisted_errors': unlisted,
             'listed_but_translatable': listed_but_ok, 'stale_list_entries': stale,
             'all_class_names': names, 'hand': hand}
 
@@ -743,13 +858,13 @@ def coq_item(it):
 
 
 def render_coq(t):
-    used_enums = sorted({it['kind'][1] for c in t['classes'] for it in c['rd'] + c['wr'] if it['kind'][0] == 'enum'})
+    used_enums = sorted({it['kind'][1] for c in t['classes'] + t['listed'] for it in c['rd'] + c['wr'] if it['kind'][0] == 'enum'})
     out = ['(* GENERATED from the read()/write() methods of kmip/core by translate/gen_schemas.py - do not edit.',
            '   %d classes under T; %d classes excluded (hand-modelled or containing a hand-modelled class). *)' % (
                len(t['classes']), len(t['excluded'])),
            'From PK Require Import Codec.Schema.', 'From PKGen Require Import Enums.',
            'Import ListNotations.', 'Open Scope Z_scope.', 'Open Scope string_scope.', '']
-    for c in t['classes']:
+    for c in t['classes'] + t['listed']:
         out.append('(* %s  %s: read l.%d, write l.%d *)' % (c['name'], c['file'], c['read_line'], c['write_line']))
         out.append('Definition C_%s : cls := {|' % c['name'])
         out.append('  c_name := "%s";' % c['name'])
@@ -766,6 +881,9 @@ def render_coq(t):
     out.append(';\n'.join('  ("%s", %d)' % (c['name'], c['default_tag']) for c in t['classes'] if c['default_tag'] is not None))
     out.append('].')
     out.append('')
+    out.append('(* translated, but listed in HANDMODELLED.txt (reader and writer disagree on the unchanged tree): NOT part of E *)')
+    out.append('Definition listed_classes : list cls := [' + '; '.join('C_' + c['name'] for c in t['listed']) + '].')
+    out.append('')
     out.append('Definition excluded_classes : list string := [')
     out.append(';\n'.join('  "%s"' % n for n in sorted(t['excluded'])))
     out.append('].')
@@ -774,13 +892,20 @@ def render_coq(t):
 
 def render_json(t):
     enums = importlib.import_module('kmip.core.enums')
-    used_enums = sorted({it['kind'][1] for c in t['classes'] for it in c['rd'] + c['wr'] if it['kind'][0] == 'enum'})
+    used_enums = sorted({it['kind'][1] for c in t['classes'] + t['listed'] for it in c['rd'] + c['wr'] if it['kind'][0] == 'enum'})
+    def cj(c):
+        return {'name': c['name'], 'module': c['module'], 'file': c['file'], 'default_tag': c['default_tag'],
+                'oversize': c['oversize'], 'minver': c['minver'], 'flags': c['flags'], 'read_line': c['read_line'],
+                'write_line': c['write_line'],
+                'rd': [{k: (list(v) if k == 'kind' else v) for k, v in i.items()} for i in c['rd']],
+                'wr': [{k: (list(v) if k == 'kind' else v) for k, v in i.items()} for i in c['wr']]}
     doc = {
         'classes': [{'name': c['name'], 'module': c['module'], 'file': c['file'], 'default_tag': c['default_tag'],
-                     'oversize': c['oversize'], 'read_line': c['read_line'], 'write_line': c['write_line'],
+                     'oversize': c['oversize'], 'minver': c['minver'], 'flags': c['flags'], 'read_line': c['read_line'], 'write_line': c['write_line'],
                      'rd': [{k: (list(v) if k == 'kind' else v) for k, v in i.items()} for i in c['rd']],
                      'wr': [{k: (list(v) if k == 'kind' else v) for k, v in i.items()} for i in c['wr']]}
                     for c in t['classes']],
+        'listed': [cj(c) for c in t['listed']],
         'enums': {e: sorted({m.value for m in getattr(enums, e)}) for e in used_enums},
         'excluded': t['excluded'],
         'listed_but_translatable': t['listed_but_translatable'],
